@@ -5,6 +5,10 @@ From V.C18 Require Import Model.
 Import ListNotations.
 Local Open Scope Z_scope.
 
+(* big integers travel as big-endian hex strings (decimal literals of 100+ digits parse slowly) *)
+Definition zp (h : string) : Z := fold_left (fun a b => a * 256 + Z.of_N b) (unhex h) 0.
+Definition zn (h : string) : Z := - zp h.
+
 Inductive obs := OOk (z : Z) | OErr (code : Z).
 
 Inductive case :=
